@@ -52,6 +52,7 @@ func (i *Interpreter) ServeHTTP(w ghttp.ResponseWriter, r *ghttp.Request) {
 
 	i.process.Restarts = i.ctx.Restarts
 	i.process.Backend = i.ctx.Backend
+	verifTraceProcess(i)
 
 	switch {
 	case i.ctx.IsPurgeRequest:
